@@ -25,6 +25,7 @@ pub fn next_node_id() -> usize {
 pub fn observe_exec(iset: &mut InstructionSet, name: &str, mut s: PushState) -> String {
     let pre = enc_state(&s);
     let nid = next_node_id();
+    crate::mark(&format!("( exec {} {} ? {} )", name, pre, nid));
     let ok = exec_by_name(iset, name, &mut s);
     if ok {
         format!("( exec {} {} {} {} )", name, pre, enc_state(&s), nid)
@@ -37,6 +38,7 @@ pub fn observe_step(iset: &mut InstructionSet, mut s: PushState) -> (String, Opt
     let pre = enc_state(&s);
     let icache = iset.cache();
     let nid = next_node_id();
+    crate::mark(&format!("( step {} ? ? {} )", pre, nid));
     let r = catch_unwind(AssertUnwindSafe(|| {
         let done = PushInterpreter::step(&mut s, iset, &icache);
         (done, s)
@@ -134,7 +136,6 @@ pub fn run(seed: u64, tier: &str, filter: &str, count: Option<u64>, out: &mut dy
                     }
                 }
             }
-            out(format!("#c exec {} {}", name, case));
             out(observe_exec(&mut iset, name, st));
         }
     }
